@@ -17,7 +17,7 @@
        proved to be a `path`), the elements executed are exactly those the model of
        Pipe/Options.v assumes, for every configuration and option value. *)
 From Coq Require Import List String Bool ZArith Lia.
-From NG Require Import Pipe.FlowCheck Pipe.FlowCheck_proofs Pipe.Options Pipe.OptGuards Gen.C01Flows Gen.C16Flows.
+From NG Require Import Pipe.FlowCheck Pipe.FlowCheck_proofs Pipe.Options Pipe.OptGuards Pipe.OptGuardsEnv Gen.C01Flows Gen.C16Flows.
 Import ListNotations.
 Open Scope string_scope.
 Open Scope list_scope.
